@@ -177,7 +177,7 @@ fn worker_body(args: WorkerArgs) {
         let mut ctx = RunCtx::new(&args.known, false, crumb);
         ctx.crumb_run(i);
         unsafe {
-            libc::alarm(20);
+            libc::alarm(30);
         }
         let seed = run_seed(args.seed, info.name, i);
         let mut rng = Rng::new(seed);
@@ -245,8 +245,9 @@ fn exec_body(scenario: &str, plan_file: &Path, out: &Path, crumb: Option<PathBuf
     let crumb = crumb.as_ref().and_then(|p| map_crumb(p));
     let mut ctx = RunCtx::new(&known, trace, crumb);
     ctx.crumb_run(0);
+    let alarm_s: u32 = std::env::var("BSVSIM_ALARM").ok().and_then(|v| v.parse().ok()).unwrap_or(30);
     unsafe {
-        libc::alarm(20);
+        libc::alarm(alarm_s);
     }
     scen.execute(&plan, &mut ctx);
     unsafe {
@@ -332,6 +333,12 @@ static EXEC_COUNTER: std::sync::atomic::AtomicU64 = std::sync::atomic::AtomicU64
 
 /// Execute a plan in a fresh child process.
 pub fn exec_plan(scratch: &Path, scenario: &str, plan: &Plan, known: &BTreeSet<String>, trace: bool) -> ExecResult {
+    exec_plan_alarm(scratch, scenario, plan, known, trace, 30)
+}
+
+/// `alarm_s`: the hang watchdog of the child. A `timeout` verdict of a loaded batch is re-examined with a much
+/// longer period before it is believed (wall-clock must not decide a verdict on a busy machine).
+pub fn exec_plan_alarm(scratch: &Path, scenario: &str, plan: &Plan, known: &BTreeSet<String>, trace: bool, alarm_s: u32) -> ExecResult {
     let n = EXEC_COUNTER.fetch_add(1, std::sync::atomic::Ordering::Relaxed);
     let pf = scratch.join(format!("x{}.plan.json", n));
     let of = scratch.join(format!("x{}.out.json", n));
@@ -343,6 +350,7 @@ pub fn exec_plan(scratch: &Path, scenario: &str, plan: &Plan, known: &BTreeSet<S
     let _ = fs::remove_file(&of);
     let mut cmd = Command::new(self_exe());
     cmd.env("RUST_BACKTRACE", "0");
+    cmd.env("BSVSIM_ALARM", alarm_s.to_string());
     cmd.arg("exec").arg(scenario).arg(&pf).arg(&of).arg("--crumb").arg(&cf).arg("--known").arg(&kf);
     if trace {
         cmd.arg("--trace");
@@ -611,7 +619,8 @@ pub fn run_sharded(scratch: &Path, scenario: &str, seed: u64, tier: Tier, indice
         // a verdict exists: do not burn the rest of the budget (each hang costs a 20 s watchdog period)
         if !agg.violations.is_empty() {
             let t = *first_violation.get_or_insert_with(Instant::now);
-            let costly = agg.violations.values().any(|v| v.class == "timeout" || v.class == "abort");
+            // one watchdog hit can be load; three say the library really hangs or dies
+            let costly = agg.violations.values().filter(|v| v.class == "timeout" || v.class == "abort").count() >= 3;
             if costly || t.elapsed().as_secs_f64() > 5.0 {
                 for sh in shards.iter_mut() {
                     if let Some(mut c) = sh.child.take() {
@@ -870,17 +879,33 @@ pub fn orchestrate(a: OrchArgs) -> i32 {
     // 4. violations
     let mut exit = 0;
     let mut reported: Vec<(String, String)> = vec![];
-    if let Some((&run, v)) = agg.violations.iter().next() {
+    // the first violation (lowest run index) that reproduces in a fresh process is the one reported
+    let mut confirmed: Option<(u64, Violation, Plan)> = None;
+    let mut dropped_timeouts = 0u64;
+    for (&run, v) in agg.violations.iter() {
         let plan = plan_for(info.name, a.seed, a.tier, run);
-        // confirm in a fresh process
-        let confirm = exec_plan(&scratch, info.name, &plan, &known, false);
-        let (target, plan) = match confirm.violation {
-            Some(cv) => (cv, plan),
+        let is_timeout = v.class == "timeout";
+        let confirm = exec_plan_alarm(&scratch, info.name, &plan, &known, false, if is_timeout { 240 } else { 60 });
+        match confirm.violation {
+            Some(cv) => {
+                confirmed = Some((run, cv, plan));
+                break;
+            }
+            None if is_timeout => {
+                // slow under load, not a hang: with a 240 s watchdog on an otherwise idle process it finishes
+                dropped_timeouts += 1;
+                println!("note: run {} hit the 30 s watchdog inside the loaded batch but completes in a fresh process; not a violation", run);
+                if dropped_timeouts > 50 {
+                    break;
+                }
+            }
             None => {
                 let _ = fs::remove_dir_all(&scratch);
                 harness_error(&format!("violation `{}` of run {} did not reproduce in a fresh process", v.signature, run));
             }
-        };
+        }
+    }
+    if let Some((run, target, plan)) = confirmed {
         let (min_plan, tries) = minimise(&scratch, scen.as_ref(), info.name, &plan, &target, &known);
         let final_res = exec_plan(&scratch, info.name, &min_plan, &known, true);
         let (final_plan, final_v) = match final_res.violation {
@@ -982,6 +1007,7 @@ pub fn orchestrate(a: OrchArgs) -> i32 {
                 "known_findings_listed": known_reported,
                 "known_findings_seen": agg.known_seen,
                 "stopped_early_after_violation": agg.stopped_early,
+                "watchdog_hits_not_reproduced": dropped_timeouts,
                 "violations_reported": reported.iter().map(|(s, r)| json!({"signature": s, "replay": r})).collect::<Vec<_>>(),
                 "workers": a.workers,
             }
